@@ -510,6 +510,9 @@ func (e *Engine) applyContract(fr *frame, st *State, fn *types.Func, decl *ast.F
 			if rets[0].Ty.K == spec.KInt { // unbox(box(x)) == x for this value
 				st.facts = append(st.facts, sx.App("=", e.uf("unbox_Int", spec.Type{K: spec.KInt}, Val{TV: spec.TV{T: boxed, Ty: spec.Type{K: spec.KAny}}}).T, rets[0].T))
 			}
+			if rets[0].Ty.K == spec.KNB { // the same for a byte-string result (asbytes(cres(...)) names it)
+				st.facts = append(st.facts, sx.App("=", e.uf("unbox_NB", spec.Type{K: spec.KNB}, Val{TV: spec.TV{T: boxed, Ty: spec.Type{K: spec.KAny}}}).T, rets[0].T))
+			}
 		}
 	}
 	// postconditions: facts, except equations on the ghost logs, which assign the log
